@@ -6,5 +6,5 @@ LABEL_KIND = {
     'cmt1': 'cmt1', 'cmtm': 'cmtm', 'create': 'create', 'createorreplace': 'create',
     'declare': 'declare', 'begin': 'begin', 'end': 'end', 'if': 'if', 'for': 'for',
     'while': 'while', 'case': 'case', 'endif': 'endif', 'endloop': 'endloop',
-    'endwhile': 'endwhile',
+    'endwhile': 'endwhile', 'go': 'go',
 }
